@@ -961,6 +961,11 @@ func hostileDoc(rng *lp.Rand, sanitize bool) (out []byte, what string, controlIn
 			used = append(used, "patternProperties+properties")
 		case 0:
 			s = map[string]any{"type": "string", "enum": []any{pick("enum-value", "one", 60), pick("enum-value", "two", 60), "three"}}
+			if rng.Chance(50) {
+				// exactly one value with nothing nameable in it (named after the type alone unless the generator takes care)
+				s["enum"] = []any{"id", "name", lp.Pick(rng, []string{"*", "!", "#", " ", "&", "~", "@", "()", "日本"})}
+				used = append(used, "unnameable-enum-value")
+			}
 		case 1:
 			s = map[string]any{"type": "string", "default": pick("default", "dflt", 70)}
 		case 2:
